@@ -34,12 +34,16 @@ SCHED_ASSUME = [
     "re-entrant extend/remove calls target the scheduler that owns the running doer",
     "hooks of Doer subclasses are arbitrary user code: may raise any Exception, may assign self.done",
 ]
-SCHED_BOUNDED_NOTE = ("Contracts whose name carries [bounded ...] interpret the real enter/recur/exit/extend/remove on deques of at most 3 deeds "
+SCHED_UNBOUNDED_NOTE = ("UNBOUNDED (contracts/sched_inv.py, deque of arbitrary symbolic length in the window encoding, dogs/doers in uninterpreted sorts, injective ghost rank = enter ordinal): "
+                        "exit() PROVED to close every alive dog of deeds exactly once in strictly decreasing rank and nothing else; recur() PROVED (without re-entrant extend/remove) to send "
+                        "each due deed exactly once with the current tyme, never a non-due one, re-append exactly the popped deed with the retyme rule of the statement, keep enter order and "
+                        "aliveness, leave no marker and advance tyme by one tock. ")
+SCHED_BOUNDED_NOTE = (SCHED_UNBOUNDED_NOTE + "Contracts whose name carries [bounded ...] interpret the real enter/recur/exit/extend/remove on deques of at most 3 deeds "
                       "(all tymes, retymes, tocks and every dog outcome symbolic): bounded in the number of doers, complete otherwise; they are "
                       "reported under bounded_symbolic and never counted as proved. ")
 
 PROPS["C01"] = dict(
-    contracts=["contracts.c01_lifecycle", "contracts.sched_bounded", "contracts.sched_bounded2", "contracts.c05_do"],
+    contracts=["contracts.c01_lifecycle", "contracts.sched_bounded", "contracts.sched_bounded2", "contracts.c05_do", "contracts.sched_inv"],
     harness="harness.sched_props:C01", level="other",
     trusted_base=["dog protocol model in contracts/sched.py"], assumptions=SCHED_ASSUME,
     explanation="Producer side PROVED for all paths and any number of recurs: the real try/except GeneratorExit/except Exception/else/finally "
@@ -50,7 +54,7 @@ PROPS["C01"] = dict(
                 "A native CPython harness over random scripted forests (incl. nested DoDoers and runtime extend/remove) is the second bounded stand-in.",
 )
 PROPS["C02"] = dict(
-    contracts=["contracts.c01_lifecycle", "contracts.sched_bounded", "contracts.sched_bounded2", "contracts.c05_do"],
+    contracts=["contracts.c01_lifecycle", "contracts.sched_bounded", "contracts.sched_bounded2", "contracts.c05_do", "contracts.sched_inv"],
     harness="harness.sched_props:C02", level="other",
     trusted_base=["dog protocol model in contracts/sched.py"], assumptions=SCHED_ASSUME,
     explanation="exit() closes in reverse deque order and deeds are kept in enter order by enter/recur/extend/remove: " + SCHED_BOUNDED_NOTE +
@@ -58,7 +62,7 @@ PROPS["C02"] = dict(
                 "terminates) and Doist.do (PROVED: exit() in finally before do returns or raises).",
 )
 PROPS["C03"] = dict(
-    contracts=["contracts.sched_bounded"], harness="harness.sched_props:C03", level="other",
+    contracts=["contracts.sched_bounded", "contracts.sched_inv"], harness="harness.sched_props:C03", level="other",
     trusted_base=["dog protocol model in contracts/sched.py"], assumptions=SCHED_ASSUME,
     explanation="Per-cycle contract of Doist.recur / DoDoer.recur / enter on the real code: tyme advances by exactly one tock, due deeds are sent "
                 "exactly once with the current tyme in deque order, retyme' = retyme + t for t > 0 (cumulative) and tyme + tock for 0/None, first "
@@ -120,7 +124,7 @@ PROPS["C12"] = dict(
                 "relies on refresh() being a lossless restart: see DESIGN.md C12 note.")
 
 PROPS["C04"] = dict(
-    contracts=["contracts.sched_bounded"], harness="harness.sched_props:C04", level="other",
+    contracts=["contracts.sched_bounded", "contracts.sched_inv"], harness="harness.sched_props:C04", level="other",
     trusted_base=["dog protocol model in contracts/sched.py"], assumptions=SCHED_ASSUME + ["the flattening lemma (a tock-0 DoDoer's cycle is the concatenation of its children's steps) is a paper argument over the per-call clauses, not mechanised"],
     explanation="Relational property. Code-to-spec half: DoDoer.enter/recur/exit are interpreted from /repo/src against the SAME clause text as Doist.enter/recur/exit "
                 "(one harness parametrised by class: injected tymth/tock, first due tyme, send order and value, retyme rule with the owner's own tock, done flags, "
@@ -176,9 +180,22 @@ PROPS["C18"] = dict(
     explanation="Bounded stand-in: WSGI apps (status, headers with/without Content-Length exact or short, body pieces incl. empty, list or generator) x request sequences "
                 "(HTTP/1.0/1.1, keep-alive/close, pipelined or sequential); the byte stream written to the socket is parsed by an independent strict parser: framing, order, body clamp, close decision.")
 PROPS["C19"] = dict(
-    contracts=[], harness="harness.http_native:C19", level="exploration", technique="bounded runtime contract on the real http Client over a fake socket with a scripted server -- stand-in",
-    explanation="Bounded stand-in: request queues (GET/POST/PUT/HEAD) against immediate, delayed and fragmented scripted responses; at most one request in flight, transmit order, one response "
-                "per request in order with its body and originating request; redirect followed with history; https->http refused.")
+    contracts=["contracts.http_client"], harness="harness.http_native:C19", level="proof",
+    trusted_base=["Requester.rebuild/build, Respondent.parse/dictify/reinit, tcp connector tx/close/reopen: EXT summaries (arbitrary result or exception) -- the "
+                  "parser side is covered by C13/C15/C18 checks, the connector by the tcp contracts",
+                  "copy.copy = shallow copy with equal items; deque.append adds at the right end; urlsplit/unquote/urljoin, httping.normalizeHostPort, "
+                  "coring.normalizeHost, httping.updateQargsQuery summarised as arbitrary results or an exception; str.lower uninterpreted"],
+    assumptions=["a queued request is a non-empty dict whose transmitted keys are a subset of the eight transmit() parameters plus keys that are handed back "
+                 "('reply'); users that mutate .waited/.latest/.requests from outside are out of scope",
+                 "the history lemma (k-th response carries the k-th queued request) is an induction over service() calls whose step cases are exactly the proved "
+                 "postconditions of serviceRequests / serviceResponse / service; the induction itself is on paper (DESIGN.md C19), the end-to-end runs are the bounded harness"],
+    explanation="PROVED for queues of ANY length (window encoding, requests known by identity): Client.serviceRequests sends nothing while waited and otherwise pops exactly the head, "
+                "records it as .latest and hands exactly one requester output built from the head's keys to the connector; Client.transmit marks waited and sends exactly once; "
+                "Client.serviceResponse appends at most one response, exactly one iff waited and the parse completed (or failed) for a non-event-stream, non-followed-redirect "
+                "response, at the right end, carrying .latest's keys and the redirect history, then clears .latest/.waited/.redirects; a followed redirect appends nothing and "
+                "stays waited; Client.service runs requests -> sends -> response once each in this order; Client.redirect transmits exactly once to the Location path, refuses "
+                "(ValueError, before closing/replacing/sending anything) exactly the https -> non-https case, resolves a relative Location against the current request, and "
+                "replaces the connector (closing the old one, TLS iff https) iff address or scheme changes. Native end-to-end runs against scripted servers are the bounded tier.")
 
 PROPS["C27"] = dict(
     contracts=["contracts.c27_naming"], harness="harness.c27", level="proof",
